@@ -21,6 +21,12 @@
     projections of the query/responses buffered (every hint-enabled member equal – addresses, names, RDATA byte for
     byte, integers unchanged, question and RR lists element by element – and nothing else); `stored_iff_nonempty`:
     a record is stored exactly when its projection holds something.
+  * `export_read_records`: the whole chain in one statement – records buffered → block built (`Model.Builder`) → bytes written
+    (`Model.Schema` writer, exporter layout) → bytes read (`Model.File.readFile` over the decoder model) → block object
+    (`Model.ReadBlock.ofVal`: `CdnsBlockRead::read` with its time arithmetic, parameter-set selection, table filling) → records
+    returned by `read_generic_qr/mm/aec` through the bounds-checked accessors (`Model.ReadBlock.records`): no exception on the way,
+    the query/responses and malformed messages are the hint projections of those buffered, in order, with their times exact;
+    the address-event totals are the numbers of times each key was buffered; the statistics are those last supplied.
   The composed statement over the exporter model is in Props/C12 (conservation); the tie of the
   schema model to the code is the `blk` correspondence (model reader = library reader, model
   writer = library bytes, on every output of every session) and the three-way differential
@@ -34,6 +40,7 @@ import CdnsVerif.Proofs.Resolve
 import CdnsVerif.Proofs.ResolveAec
 import CdnsVerif.Proofs.BuilderTime
 import CdnsVerif.Proofs.BuilderBounds
+import CdnsVerif.Proofs.ReadBlock
 import CdnsVerif.Props.C06
 import CdnsVerif.Props.C17
 
@@ -221,5 +228,81 @@ example : RecOk (.qr { clientPort := some 53, queryName := some [3, 119, 119, 11
     | (intro x hx; cases hx; decide)
     | (intro x hx; cases hx; exact ⟨by decide, fun b hb => by simp at hb; omega⟩)
     | (intro x hx; cases hx; exact ⟨by decide, by decide⟩)
+
+/-! ### the whole chain: buffered records → file bytes → records returned by the reader -/
+
+open CdnsVerif.Model.Builder CdnsVerif.Model.ReadBlock in
+/-- total count the reader returns for a generic address-event key -/
+def returnedCount (l : List (GAEC × Nat)) (k : GAEC) : Nat := ((l.filter fun e => decide (e.1 = k)).map (·.2)).sum
+
+open CdnsVerif.Model.Builder CdnsVerif.Model.ReadBlock in
+theorem returnedCount_eq (b : Blk) (k : GAEC) :
+    returnedCount (b.aecs.filterMap fun a => (resolveA b a.1).map fun g => (g, a.2)) k = countFor b k := by
+  unfold returnedCount countFor
+  generalize b.aecs = l
+  induction l with
+  | nil => rfl
+  | cons a l ih =>
+    simp only [List.filterMap_cons, List.filter_cons]
+    cases hr : resolveA b a.1 with
+    | none =>
+      simp only [Option.map_none, reduceCtorEq, decide_false, Bool.false_eq_true, if_false]
+      exact ih
+    | some g =>
+      simp only [Option.map_some, List.filter_cons, Option.some.injEq]
+      by_cases hg : g = k
+      · simp only [hg, decide_true, if_true, List.map_cons, List.sum_cons]
+        rw [← hg] at ih ⊢; rw [ih]
+      · simp only [hg, decide_false, Bool.false_eq_true, if_false]
+        exact ih
+
+open CdnsVerif.Model.Builder CdnsVerif.Model.Schema CdnsVerif.Model.Structs CdnsVerif.Model.File CdnsVerif.Model.ReadBlock CdnsVerif.Model.Timestamp in
+/-- **Export → file → read, end to end.**  For every hint setting, every tick rate ≥ 1 and every sequence of buffered records whose
+    members fit the C++ member widths and whose times are representable (the preconditions the property states), the file the
+    exporter lays out for the block built from them – under any conforming preamble whose parameter set named by the block carries
+    that tick rate – is read back completely (nothing left over), the block reader accepts the raw block (no
+    `CdnsDecoderException`, no failing time arithmetic), no bounds-checked accessor throws, and the application receives:
+    the hint projections of the query/responses buffered, in their original order (`expectedQrs`: every hint-enabled member
+    equal, times exact to the tick); every non-empty malformed message unchanged, in order; for every address-event key a total
+    count equal to the number of times it was buffered; and the statistics supplied last. -/
+theorem export_read_records (h : Hints) (recs : List Rec) (pi : Option Nat) (pv : Val) (hp : Conforms filePreamble pv)
+    (hrecs : ∀ r ∈ recs, RecOk r) (hn : recs.length < 2 ^ 64) (hl : ∀ t, len (build h recs) t ≤ 2 ^ 32) (hpi : ULt 32 pi)
+    (hr : 1 ≤ h.tps) (htimes : ∀ rec ∈ recs, ∀ t, rec.ts = some t → C17.InRange t h.tps ∧ t.ticks < h.tps)
+    (hrate : rateFor (ratesOf pv) pi = .ok h.tps) :
+    ∃ fuel₀, ∀ fuel, fuel₀ ≤ fuel → ∃ v rb r,
+      (readFile fuel).run (fileBytes pv [toVal (build h recs) pi h.tps]) = .ok ((pv, .list [v]), []) ∧
+      ofVal (ratesOf pv) v = .ok rb ∧ records rb.blk = .ok r ∧
+      r.qrs = expectedQrs h recs ∧ r.mms = expectedMms h recs ∧
+      (∀ k, returnedCount r.aecs k = timesBuffered h recs k) ∧
+      rb.blk.stats = ((recs.filterMap statOf).getLast?).map norm6 ∧ rb.pi = pi := by
+  obtain ⟨fuel₀, hf⟩ := built_file_roundtrip h recs pi pv hp hrecs hn hl hpi
+  refine ⟨fuel₀, fun fuel hfu => ?_⟩
+  have htr := record_times_recovered h recs h.tps hr htimes
+  have hback : ∀ (ts : Option Ts), (∀ t, ts = some t → ∃ n, offsetOf t (build h recs).earliest h.tps = some n ∧ n < two63 ∧
+      addTimeOffset (build h recs).earliest (toI64 n) h.tps = .ok t) → TimeBack (build h recs).earliest h.tps ts := by
+    intro ts hts
+    unfold TimeBack
+    cases ts with
+    | none => rfl
+    | some t =>
+      obtain ⟨n, hn1, _, hn3⟩ := hts t rfl
+      simp only [Option.bind_some, hn1, timeOf, hn3]
+  have hov := ofVal_toVal (ratesOf pv) (build h recs) pi h.tps hrate
+    (fun q hq => hback q.ts fun t ht => htr.1 q hq t ht) (fun m hm => hback m.ts fun t ht => htr.2 m hm t ht) (aec_keys_nodup h recs)
+  obtain ⟨r, hr1, hr2, hr3, hr4⟩ := records_closed (readBackOf (build h recs)) (closed_readBackOf _ (inv_build h recs).1)
+  refine ⟨_, _, r, hf fuel hfu, hov, hr1, ?_, ?_, ?_, ?_, rfl⟩
+  · rw [hr2]; exact records_resolve_to_projection h recs
+  · rw [hr3]; exact malformed_messages_read_back h recs
+  · intro k
+    rw [hr4]
+    exact (returnedCount_eq (build h recs) k).trans (address_event_totals h recs k)
+  · show (build h recs).stats.map norm6 = _
+    rw [block_statistics_latest h recs]
+
+open CdnsVerif.Model.Builder CdnsVerif.Model.ReadBlock in
+/-- non-vacuity of the rate hypothesis: the sample preamble's only parameter set has rate 1000000, and a block naming set 0
+    (or no set) is read under it -/
+example : rateFor (ratesOf samplePreamble) (some 0) = .ok 1000000 ∧ rateFor (ratesOf samplePreamble) none = .ok 1000000 := ⟨rfl, rfl⟩
+
 
 end CdnsVerif.Props.C01
